@@ -28,7 +28,7 @@ PLAN = dict(
           "the document (directories put in front or removed so that one name is a trailing sub-path of "
           "another, a shared prefix, letter case of one letter, one invalid-UTF-8 byte exchanged for another), "
           "some are 30-200 bytes long; RCS Ids up to 400 bytes. Non-trivial = the document has at least one "
-          "file name with a byte >= 0x80; distinct = distinct document texts by 64-bit fingerprint."),
+          "file name with a byte >= 0x80; distinct = distinct document texts by 64-bit fingerprint. Later additions: upper- and mixed-case hex hashes, the text of a preceding line's hash again (under another algorithm or file); Distinfo::default() as a starting point."),
     assumptions=[
         "the canonical rendering in harness/src/oracle/distinfo.rs is the layout the statement describes "
         "('ALG (name) = hash', 'Size (name) = N bytes', single blanks, LF line ends)",
